@@ -15,6 +15,28 @@ class Alt:
         self.alts = alts
 
 
+class Adt:
+    """oracle answer for an enum / tuple valued call: discriminant plus known payload fields"""
+    def __init__(self, discr, fields=()):
+        self.discr = discr
+        self.fields = list(fields)
+
+
+def _store_call(st, dl, val):
+    st.refs.pop(dl, None)
+    for kk in [kk for kk in st.env if isinstance(kk, tuple) and kk[0] == dl]:
+        del st.env[kk]
+    if isinstance(val, Adt):
+        for i, f in enumerate(val.fields):
+            if f is not UNKNOWN:
+                st.env[(dl, i)] = f
+        val = val.discr
+    if val is UNKNOWN:
+        st.env.pop(dl, None)
+    else:
+        st.env[dl] = val
+
+
 class State:
     __slots__ = ("env", "refs", "trace", "calls", "visits", "tags")
 
@@ -196,20 +218,12 @@ def explore(fn, oracle, init=None, max_states=4000, max_visits=2, stop_at=None):
                         s2 = st.fork()
                         s2.tags.append((bb, tag))
                         if not dprojs:
-                            s2.refs.pop(dl, None)
-                            if v2 is UNKNOWN:
-                                s2.env.pop(dl, None)
-                            else:
-                                s2.env[dl] = v2
+                            _store_call(s2, dl, v2)
                         work.append((s2, t["t"]))
                     val, tag = val.alts[0]
                     st.tags.append((bb, tag))
                 if not dprojs:
-                    st.refs.pop(dl, None)
-                    if val is UNKNOWN:
-                        st.env.pop(dl, None)
-                    else:
-                        st.env[dl] = val
+                    _store_call(st, dl, val)
                 if t.get("t") is None:
                     out.append((st, "diverge"))
                     break
